@@ -6,7 +6,7 @@ from shapes import *
 def shapes(tier):
     b = CrlShape()
     out = [b, replace(b, revoked=(0,)), replace(b, revoked=(2,)), replace(b, revoked=(1,)), replace(b, revoked=(0,), invalidity=1),
-           replace(b, revoked=(3,), invalidity=1), replace(b, idp=1), replace(b, idp=2, idp_uris=2), replace(b, idp=3),
+           replace(b, revoked=(3,), invalidity=1), replace(b, revoked=(1,), invalidity=1), replace(b, idp=1), replace(b, idp=2, idp_uris=2), replace(b, idp=3),
            replace(b, revoked=(2, 0), invalidity=2, idp=2, issuer_ku=4, number_len=3, number_b0=0x80, serial_len=3, serial_b0=0xff),
            replace(b, kid_len=4, revoked=(5,))]
     if tier == "thorough":
@@ -40,7 +40,7 @@ def run_mir(tier, seed):
 
 def spec(tier, seed):
     qs = [crl_query("c08", s, O_C08) for s in shapes(tier)]
-    rels = ["same day", "nextUpdate one day later", "nextUpdate one day earlier", "across 2049-12-31 / 2050-01-01"]
+    rels = ["same day", "nextUpdate one day later", "nextUpdate one day earlier", "both in 2050 (GeneralizedTime form), one day apart"]
     for rel, what in enumerate(rels):
         for n_ku in (0, 1, 2):
             if tier == "quick" and not (rel == 0 or (rel, n_ku) in ((1, 1), (2, 0), (3, 2))):
